@@ -30,6 +30,15 @@ INFO = {
              "error kind, and the error stays reported when the iterator is polled again.",
         note="Trusts time.Format for RFC3339Nano text, the fake daemon's transport, TLC; bounded frames + random larger streams.",
         ref="6/C03"),
+    "C04": dict(
+        text="TLC checks the design (goroutine-per-container open into an index-addressed slice, then a container/heap merge "
+             "transcribed swap by swap) for per-source order, exactly-once delivery, time order for sorted logs and slot "
+             "write-once, over every small inventory and every interleaving of the open completions; every such inventory is "
+             "then executed on dockerlog.Querier.SelectLogs under all completion orders forced through the fake daemon, plus "
+             "random larger inventories, and TLC validates each recorded run (Trace_Merge) including equality of the merged "
+             "sequence across orders.",
+        note="Trusts the gate-based scheduler of the fake daemon to realise the completion order, and TLC; bounded inventories + random larger ones.",
+        ref="6/C04"),
 }
 
 NOT_YET = "no check registered yet in this revision (machinery under construction; see DESIGN.md section 6 for the planned model)"
